@@ -56,7 +56,7 @@ Definition covered (p : pool) : Prop :=
 
 Record inv (s : state) : Prop := mkInv {
   i_pools : Forall (pool_inv (height s)) (vals (pools s));
-  i_ids : Forall (fun id => id <= seq s) (keys (pools s));
+  i_ids : Forall (fun id => 0 < id <= seq s) (keys (pools s));
   i_escrow : forall d, bal (bank s) FARM d = escrow_expected (pools s) d;
   i_solv : forall d, owed (pools s) d <= bal (bank s) COLL d * P18;
   i_sched : forall pid p, get pid (pools s) = Some p -> in_queue (queue s) (p_end p, pid) = true ->
@@ -64,7 +64,8 @@ Record inv (s : state) : Prop := mkInv {
   i_unq : forall pid p, get pid (pools s) = Some p -> in_queue (queue s) (p_end p, pid) = false -> p_end p <= height s;
   i_qwf : forall e pid, in_queue (queue s) (e, pid) = true -> exists p, get pid (pools s) = Some p /\ p_end p = e;
   i_qnd : NoDup (queue s);
-  i_height : 0 <= height s
+  i_height : 0 <= height s;
+  i_seq : 0 <= seq s
 }.
 
 (** ** sums over the pools *)
